@@ -437,9 +437,15 @@ impl KmerMinHash {
         let max_size = self.mins.len() + other.mins.len();
 
         let mut merged: Vec<u64> = Vec::with_capacity(max_size);
-        let mut merged_abunds: Option<Vec<u64>> = if self.abunds.is_some() && other.abunds.is_some()
-        {
+        // a sketch that tracks abundance keeps doing so: hashes merged in from a
+        // flat sketch count once each
+        let mut merged_abunds: Option<Vec<u64>> = if self.abunds.is_some() {
             Some(Vec::with_capacity(max_size))
+        } else {
+            None
+        };
+        let other_ones: Option<Vec<u64>> = if self.abunds.is_some() && other.abunds.is_none() {
+            Some(vec![1; other.mins.len()])
         } else {
             None
         };
@@ -448,7 +454,7 @@ impl KmerMinHash {
         let mut other_iter = other.mins.iter();
 
         let mut self_abunds_iter = self.abunds.iter().flatten();
-        let mut other_abunds_iter = other.abunds.iter().flatten();
+        let mut other_abunds_iter = other.abunds.iter().chain(other_ones.iter()).flatten();
 
         let mut self_value = self_iter.next();
         let mut other_value = other_iter.next();
@@ -1331,15 +1337,17 @@ impl KmerMinHashBTree {
         self.mins = union.take(to_take).cloned().collect();
 
         if let Some(abunds) = &self.abunds {
-            if let Some(oabunds) = &other.abunds {
-                let mut new_abunds = BTreeMap::new();
+            let mut new_abunds = BTreeMap::new();
 
-                for hash in &self.mins {
-                    *new_abunds.entry(*hash).or_insert(0) +=
-                        abunds.get(hash).unwrap_or(&0) + oabunds.get(hash).unwrap_or(&0);
-                }
-                self.abunds = Some(new_abunds)
+            for hash in &self.mins {
+                // hashes merged in from a flat sketch count once each
+                let other_abund = match &other.abunds {
+                    Some(oabunds) => *oabunds.get(hash).unwrap_or(&0),
+                    None => u64::from(other.mins.contains(hash)),
+                };
+                *new_abunds.entry(*hash).or_insert(0) += abunds.get(hash).unwrap_or(&0) + other_abund;
             }
+            self.abunds = Some(new_abunds)
         }
         // Better safe than sorry, but could check in other places to avoid
         // always resetting
